@@ -33,10 +33,11 @@ MCFieldSet(c) ==
   IF NVariants(c) = 0 \/ Len(Last(c.variants).fields) >= 1 THEN {}
   ELSE { [DefField EXCEPT !.ty = t] : t \in PayloadSet }
 
-IntReprs == {"u8", "i16", "C, u8"}
+IntReprs == {"u8", "i16", "isize", "i8", "C, u8"}
 Fits(r, d) ==
   CASE r \in {"u8", "C, u8"} -> d >= 0 /\ d <= 255
     [] r = "i16" -> d >= -32768 /\ d <= 32767
+    [] r = "i8" -> d >= -128 /\ d <= 127
     [] OTHER -> TRUE
 HasExplicit(c) == \E v \in 1..NVariants(c) : c.variants[v].disc # NoDisc
 HasPayload(c) == NPayload(c) > 0
